@@ -189,6 +189,16 @@ func Explode(dstDir string, inputShard string) error {
 		}
 	}
 
+	// A ".meta" file already present at a destination name belongs to an earlier
+	// shard of that name (for example one whose removal was interrupted between
+	// the shard and its ".meta" file). The exploded shard must not be read
+	// through that stale metadata, tombstones included.
+	for _, dstFn := range exploded {
+		if err := os.Remove(dstFn + ".meta"); err != nil && !os.IsNotExist(err) {
+			return err
+		}
+	}
+
 	// best effort rename shards.
 	var renameErr error
 	for tmpFn, dstFn := range exploded {
